@@ -17,6 +17,15 @@ package main
 //   reads       reads of fields that are written under a mutex (lock discipline needs the readers too).
 //   reach       for every function: the site-bearing functions / constructors it may reach (name-based call graph).
 //   globals     package-level variables of the scanned packages.
+//   captured    (general rule for closures) a write whose target is a variable - or a field / element reached from a
+//               variable - that belongs to an ENCLOSING function and is captured by a function literal that escapes
+//               (it is returned, stored, or passed on as option / callback: everything except `func(){…}()`, `defer` and
+//               `go` of the literal itself).  Such a cell outlives the call that created the closure and is shared by every
+//               invocation of it: root `.captured owner var depth` (owner = the function whose activation holds the
+//               variable, depth 0 = the declared function itself, >0 = a function literal inside it).  The same holds
+//               for a method value `v.M` that escapes: the receiver writes of M land in the captured variable v.
+//               Sites that the older rules already report (package-level variables, objects of instance types, anchor
+//               files, element writes into a caller's slice) keep their root; the rule only ADDS sites.
 //
 // Scope: the anchor files completely; every other non-test file of the scanned packages for writes to package-level
 // variables, to objects of an instance type (a type with a constructor in an anchor file), through getter results, and for
@@ -43,7 +52,30 @@ var fpDirs = []string{"pkg/op", "pkg/client", "pkg/client/rp", "pkg/client/rs", 
 
 const fpModule = "github.com/zitadel/oidc/v3/"
 
-type fpRoot struct{ Kind, Name, Type, Method string } // Kind: global | recv | param | fresh | via
+type fpRoot struct {
+	Kind, Name, Type, Method string // Kind: global | recv | param | fresh | via | captured (Name = owner function, Method = variable)
+	Depth                    int    // captured: 0 = variable of the declared function, >0 = of a function literal inside it
+}
+
+// a variable of an enclosing function that an escaping function literal captures
+type fpCapture struct {
+	Owner, Var, Type string
+	Depth            int
+}
+
+// a captured variable handed to another function: as the receiver of an escaping method value `v.M`, or as receiver /
+// argument of a call made by an escaping closure.  The callee's writes through that receiver / parameter land in the
+// captured variable (one call level is followed).
+type fpMethodVal struct {
+	Cap    fpCapture
+	Method string // qualified callee: pkg.T.M or pkg.F
+	Param  string // "" = the receiver, otherwise the name of the parameter that receives the captured variable
+}
+
+type fpDecl struct {
+	depth int
+	fn    string
+}
 
 func (r fpRoot) lean() string {
 	switch r.Kind {
@@ -55,6 +87,8 @@ func (r fpRoot) lean() string {
 		return ".param " + leanStr(r.Name) + " " + leanStr(r.Type)
 	case "via":
 		return ".via " + leanStr(r.Type) + " " + leanStr(r.Method)
+	case "captured":
+		return ".captured " + leanStr(r.Name) + " " + leanStr(r.Method) + " " + fmt.Sprint(r.Depth)
 	}
 	return ".fresh " + leanStr(r.Type)
 }
@@ -74,6 +108,7 @@ type fpSite struct {
 	Op, Phase, Guard, Mutex string
 	anchor                  bool
 	method                  string
+	cap                     *fpCapture
 }
 type fpAlias struct {
 	Func, Type, Field string
@@ -126,6 +161,8 @@ type fpGen struct {
 	methodsByName map[string][]string // M -> qualified "pkg.T.M"
 	exported      map[string]bool
 	fieldUses     []fpRead // every read of recv.field inside methods (filtered later)
+	mvals         []fpMethodVal
+	paramNames    map[string][]string // qualified function -> parameter names in order
 }
 
 func shortOf(importPath string) string {
@@ -211,6 +248,11 @@ type fpWalk struct {
 	tparams  map[string]string // type parameter -> constraint
 	returned bool              // the function literal being entered is a direct operand of `return`
 	inAssign bool              // walking the right-hand side of an assignment whose top-level append is reported by write()
+	depth    int               // nesting depth of function literals (0 = the declared function)
+	decl     map[string]fpDecl // variable -> where it was declared
+	escapes  []bool            // escapes[d-1]: the literal at depth d escapes (is not called / deferred / started on the spot)
+	direct   map[ast.Node]bool // function literals / selectors that are the callee of a call expression
+	valueUse map[string]bool   // identifiers of the declared function that are used as a value (not only called / assigned to)
 }
 
 // static type of an expression where it is syntactically evident ("" = unknown)
@@ -451,11 +493,114 @@ func (w *fpWalk) guard(lhs ast.Expr) (string, string) {
 	return "none", ""
 }
 
+// valueUses: identifiers that occur in the body other than as the callee of a call or as the target of an assignment
+func valueUses(body *ast.BlockStmt) map[string]bool {
+	skip := map[*ast.Ident]bool{}
+	out := map[string]bool{}
+	ast.Inspect(body, func(n ast.Node) bool {
+		switch x := n.(type) {
+		case *ast.CallExpr:
+			if id, ok := ast.Unparen(x.Fun).(*ast.Ident); ok {
+				skip[id] = true
+			}
+		case *ast.AssignStmt:
+			for _, l := range x.Lhs {
+				if id, ok := l.(*ast.Ident); ok {
+					skip[id] = true
+				}
+			}
+		case *ast.ValueSpec:
+			for _, id := range x.Names {
+				skip[id] = true
+			}
+		case *ast.Ident:
+			if !skip[x] {
+				out[x.Name] = true
+			}
+		}
+		return true
+	})
+	return out
+}
+
+// the variable an lvalue starts from
+func baseIdent(e ast.Expr) *ast.Ident {
+	for {
+		switch x := e.(type) {
+		case *ast.Ident:
+			return x
+		case *ast.SelectorExpr:
+			e = x.X
+		case *ast.IndexExpr:
+			e = x.X
+		case *ast.SliceExpr:
+			e = x.X
+		case *ast.StarExpr:
+			e = x.X
+		case *ast.ParenExpr:
+			e = x.X
+		case *ast.TypeAssertExpr:
+			e = x.X
+		case *ast.UnaryExpr:
+			e = x.X
+		default:
+			return nil
+		}
+	}
+}
+
+func (w *fpWalk) declare(name string) {
+	if name == "_" || name == "" {
+		return
+	}
+	w.decl[name] = fpDecl{depth: w.depth, fn: w.fn}
+}
+
+// captureOf: is `name` a variable of an enclosing function that the current (escaping) function literal captures?
+func (w *fpWalk) captureOf(name string) *fpCapture {
+	if _, local := w.env[name]; !local {
+		return nil
+	}
+	d, ok := w.decl[name]
+	if !ok || d.depth >= w.depth {
+		return nil
+	}
+	esc := false
+	for k := d.depth; k < w.depth && k < len(w.escapes); k++ {
+		esc = esc || w.escapes[k]
+	}
+	if !esc {
+		return nil
+	}
+	return &fpCapture{Owner: d.fn, Var: name, Type: w.tenv[name], Depth: d.depth}
+}
+
 func (w *fpWalk) emit(pos token.Pos, lhs ast.Expr, p fpProv, op string) {
 	g := w.f.gen
 	guard, mu := w.guard(lhs)
+	var cap *fpCapture
+	if id := baseIdent(lhs); id != nil {
+		cap = w.captureOf(id.Name)
+	}
 	g.sites = append(g.sites, fpSite{File: w.f.rel, Func: w.fn, Lhs: types.ExprString(lhs), Line: g.fset.Position(pos).Line,
-		Root: p.Root, Path: p.Path, Op: op, Phase: w.phase, Guard: guard, Mutex: mu, anchor: g.anchors[w.f.rel], method: w.method})
+		Root: p.Root, Path: p.Path, Op: op, Phase: w.phase, Guard: guard, Mutex: mu, anchor: g.anchors[w.f.rel], method: w.method, cap: cap})
+}
+
+// emitCaptured reports a write that only the closure rule sees (a local of an enclosing function)
+func (w *fpWalk) emitCaptured(pos token.Pos, lhs ast.Expr, path []string, op string) bool {
+	id := baseIdent(lhs)
+	if id == nil {
+		return false
+	}
+	cap := w.captureOf(id.Name)
+	if cap == nil {
+		return false
+	}
+	g := w.f.gen
+	guard, mu := w.guard(lhs)
+	g.sites = append(g.sites, fpSite{File: w.f.rel, Func: w.fn, Lhs: types.ExprString(lhs), Line: g.fset.Position(pos).Line,
+		Root: fpRoot{Kind: "fresh"}, Path: path, Op: op, Phase: w.phase, Guard: guard, Mutex: mu, anchor: false, method: w.method, cap: cap})
+	return true
 }
 
 func isAppend(e ast.Expr) (*ast.CallExpr, bool) {
@@ -493,6 +638,13 @@ func (w *fpWalk) write(pos token.Pos, lhs ast.Expr, rhs ast.Expr, define bool) {
 				w.emit(pos, app.Args[0], p, "append")
 			}
 		}
+		if define {
+			if d, ok := w.decl[id.Name]; !ok || d.depth != w.depth {
+				w.declare(id.Name)
+			}
+		} else if local && id.Name != "_" {
+			w.emitCaptured(pos, lhs, nil, op) // assignment to a variable of an enclosing function
+		}
 		if rhs != nil {
 			p := w.provOf(rhs)
 			if u, ok := rhs.(*ast.StarExpr); ok {
@@ -522,7 +674,9 @@ func (w *fpWalk) write(pos token.Pos, lhs ast.Expr, rhs ast.Expr, define bool) {
 			if len(p.Path) >= 2 || op == "append" {
 				w.emit(pos, lhs, p, op)
 			}
+			return
 		}
+		w.emitCaptured(pos, lhs, p.Path, op) // object created by an enclosing function, written by an escaping closure
 		return
 	}
 	if len(p.Path) == 1 && rhs != nil && op == "assign" && (p.Root.Kind == "param" || p.Root.Kind == "recv") {
@@ -547,6 +701,37 @@ func (w *fpWalk) aliasT(t, field string, rhs ast.Expr) {
 	}
 	if len(src.Path) == 0 && (src.Root.Kind == "global" || src.Root.Kind == "param") {
 		w.f.gen.aliases = append(w.f.gen.aliases, fpAlias{Func: w.fn, Type: t, Field: field, Src: src.Root})
+	}
+}
+
+// methodValue: `v.M` used as a value (not called) where v is a variable of non-instance type: the method value escapes
+// with v bound, so the receiver writes of M are writes to what v refers to for as long as the value lives.
+func (w *fpWalk) methodValue(sel *ast.SelectorExpr) {
+	if w.direct[sel] {
+		return
+	}
+	id, ok := sel.X.(*ast.Ident)
+	if !ok {
+		return
+	}
+	if _, local := w.env[id.Name]; !local {
+		return
+	}
+	g := w.f.gen
+	t := w.typeOf(id)
+	if t == "" || g.inst[t] {
+		return
+	}
+	fns, ok := g.resolveMethod(t, sel.Sel.Name)
+	if !ok || len(fns) == 0 {
+		return
+	}
+	d, ok := w.decl[id.Name]
+	if !ok {
+		return
+	}
+	for _, f := range fns {
+		g.mvals = append(g.mvals, fpMethodVal{Cap: fpCapture{Owner: d.fn, Var: id.Name, Type: t, Depth: d.depth}, Method: f})
 	}
 }
 
@@ -585,10 +770,24 @@ func (w *fpWalk) callee(c *ast.CallExpr) {
 		g.calls[w.fn][k] = true
 		g.allFn[w.fn] = true
 	}
+	bindArgs := func(q string) {
+		names := g.paramNames[q]
+		for i, a := range c.Args {
+			if i >= len(names) {
+				break
+			}
+			if id := baseIdent(a); id != nil {
+				if cap := w.captureOf(id.Name); cap != nil && !g.inst[cap.Type] {
+					g.mvals = append(g.mvals, fpMethodVal{Cap: *cap, Method: q, Param: names[i]})
+				}
+			}
+		}
+	}
 	switch x := fun.(type) {
 	case *ast.Ident:
 		if _, local := w.env[x.Name]; !local && w.f.pkg.funcs[x.Name] {
 			add(w.f.pkg.short + "." + x.Name)
+			bindArgs(w.f.pkg.short + "." + x.Name)
 		}
 		// builtins that write through their first argument
 		if (x.Name == "delete" || x.Name == "copy" || x.Name == "clear") && len(c.Args) > 0 {
@@ -603,6 +802,7 @@ func (w *fpWalk) callee(c *ast.CallExpr) {
 			if s, ok := w.isImport(id); ok {
 				if p := g.byShort[s]; p != nil && p.funcs[x.Sel.Name] {
 					add(s + "." + x.Sel.Name)
+					bindArgs(s + "." + x.Sel.Name)
 				}
 				return
 			}
@@ -610,6 +810,12 @@ func (w *fpWalk) callee(c *ast.CallExpr) {
 		if fns, ok := g.resolveMethod(w.typeOf(x.X), x.Sel.Name); ok {
 			for _, f := range fns {
 				add(f)
+				bindArgs(f)
+				if id := baseIdent(x.X); id != nil {
+					if cap := w.captureOf(id.Name); cap != nil && !g.inst[cap.Type] {
+						g.mvals = append(g.mvals, fpMethodVal{Cap: *cap, Method: f}) // method call on a captured variable
+					}
+				}
 			}
 			return
 		}
@@ -629,6 +835,7 @@ func (w *fpWalk) exprs(es ...ast.Expr) {
 				w.funcLit(x, false)
 				return false
 			case *ast.CallExpr:
+				w.direct[ast.Unparen(x.Fun)] = true
 				w.callee(x)
 				if c, ok := isAppend(x); ok && !w.inAssign {
 					src := w.provOf(c.Args[0])
@@ -638,6 +845,7 @@ func (w *fpWalk) exprs(es ...ast.Expr) {
 					}
 				}
 			case *ast.SelectorExpr:
+				w.methodValue(x)
 				if id, ok := x.X.(*ast.Ident); ok && w.recvT != "" {
 					if p, ok := w.env[id.Name]; ok && p.Root.Kind == "recv" && len(p.Path) == 0 {
 						_, mu := w.guard(x)
@@ -658,7 +866,14 @@ func (w *fpWalk) funcLit(fl *ast.FuncLit, option bool) {
 	for k, v := range saveT {
 		w.tenv[k] = v
 	}
-	defer func() { w.fn, w.tenv = saveFn, saveT }()
+	saveDecl, saveDepth, saveEsc := w.decl, w.depth, w.escapes
+	w.decl = map[string]fpDecl{}
+	for k, v := range saveDecl {
+		w.decl[k] = v
+	}
+	w.escapes = append(append([]bool{}, saveEsc...), !w.direct[fl])
+	w.depth++
+	defer func() { w.fn, w.tenv, w.decl, w.depth, w.escapes = saveFn, saveT, saveDecl, saveDepth, saveEsc }()
 	if w.returned && !option && !strings.HasSuffix(w.fn, "$ret") {
 		w.fn += "$ret"
 		if w.phase == "ctor" {
@@ -688,6 +903,7 @@ func (w *fpWalk) params(ft *ast.FuncType) {
 				if n.Name != "_" {
 					w.env[n.Name] = fpProv{Root: fpRoot{Kind: "param", Name: n.Name, Type: t}}
 					w.tenv[n.Name] = t
+					w.declare(n.Name)
 				}
 			}
 		}
@@ -697,6 +913,7 @@ func (w *fpWalk) params(ft *ast.FuncType) {
 			for _, n := range fld.Names {
 				if n.Name != "_" {
 					w.env[n.Name] = fresh(w.f.typeStr(fld.Type))
+					w.declare(n.Name)
 				}
 			}
 		}
@@ -738,10 +955,12 @@ func (w *fpWalk) stmt(s ast.Stmt) {
 		if sel, ok := x.Call.Fun.(*ast.SelectorExpr); ok && (sel.Sel.Name == "Unlock" || sel.Sel.Name == "RUnlock") {
 			return
 		}
+		w.direct[ast.Unparen(x.Call.Fun)] = true
 		w.exprs(x.Call)
 	case *ast.GoStmt:
 		saveHeld := w.held
 		w.held = nil
+		w.direct[ast.Unparen(x.Call.Fun)] = true
 		w.exprs(x.Call)
 		w.held = saveHeld
 	case *ast.ReturnStmt:
@@ -763,6 +982,16 @@ func (w *fpWalk) stmt(s ast.Stmt) {
 		w.exprs(x.X)
 		w.write(x.Pos(), x.X, nil, false)
 	case *ast.AssignStmt:
+		if len(x.Lhs) == len(x.Rhs) {
+			for i, r := range x.Rhs {
+				// f := func(){…} where f is only ever called in this function: the literal does not leave the activation
+				if fl, ok := r.(*ast.FuncLit); ok {
+					if id, ok := x.Lhs[i].(*ast.Ident); ok && !w.valueUse[id.Name] && !w.f.pkg.vars[id.Name] {
+						w.direct[fl] = true
+					}
+				}
+			}
+		}
 		for _, r := range x.Rhs {
 			if c, ok := isAppend(r); ok {
 				// the append itself is reported by write(); its arguments are ordinary expressions
@@ -798,6 +1027,7 @@ func (w *fpWalk) stmt(s ast.Stmt) {
 							w.write(n.Pos(), n, vs.Values[i], true)
 						} else {
 							w.env[n.Name] = fresh(w.f.typeStr(vs.Type))
+							w.declare(n.Name)
 						}
 						if vs.Type != nil {
 							w.tenv[n.Name] = w.f.typeStr(vs.Type)
@@ -823,9 +1053,15 @@ func (w *fpWalk) stmt(s ast.Stmt) {
 		src := w.provOf(x.X)
 		if id, ok := x.Key.(*ast.Ident); ok {
 			w.bind(id.Name, fresh(""))
+			if x.Tok == token.DEFINE {
+				w.declare(id.Name)
+			}
 		}
 		if id, ok := x.Value.(*ast.Ident); ok {
 			w.bind(id.Name, fpProv{Root: src.Root, Path: append(append([]string{}, src.Path...), "[]")})
+			if x.Tok == token.DEFINE {
+				w.declare(id.Name)
+			}
 		}
 		w.block(x.Body.List)
 	case *ast.SwitchStmt:
@@ -1177,6 +1413,16 @@ func (g *fpGen) scan() {
 					g.methodsByName[fd.Name.Name] = append(g.methodsByName[fd.Name.Name], q)
 				}
 				g.allFn[q] = true
+				if fd.Type.Params != nil {
+					for _, fld := range fd.Type.Params.List {
+						for _, n := range fld.Names {
+							g.paramNames[q] = append(g.paramNames[q], n.Name)
+						}
+						if len(fld.Names) == 0 {
+							g.paramNames[q] = append(g.paramNames[q], "_")
+						}
+					}
+				}
 				if ast.IsExported(fd.Name.Name) {
 					g.exported[q] = true
 				}
@@ -1194,7 +1440,8 @@ func (g *fpGen) scan() {
 	for _, j := range jobs {
 		fd, ff := j.fd, j.ff
 		rn, rt := recvOf(fd)
-		w := &fpWalk{f: ff, method: fd.Name.Name, env: map[string]fpProv{}, phase: "func", tenv: map[string]string{}, tparams: map[string]string{}}
+		w := &fpWalk{f: ff, method: fd.Name.Name, env: map[string]fpProv{}, phase: "func", tenv: map[string]string{}, tparams: map[string]string{},
+			decl: map[string]fpDecl{}, direct: map[ast.Node]bool{}}
 		if fd.Type.TypeParams != nil {
 			for _, tp := range fd.Type.TypeParams.List {
 				for _, n := range tp.Names {
@@ -1210,15 +1457,18 @@ func (g *fpGen) scan() {
 			if rn != "" && rn != "_" {
 				w.env[rn] = fpProv{Root: fpRoot{Kind: "recv", Type: w.recvT}}
 				w.tenv[rn] = w.recvT
+				w.declare(rn)
 			}
 		}
 		w.params(fd.Type)
+		w.valueUse = valueUses(fd.Body)
 		if ci, ok := ctorInfo[fd]; ok {
 			w.phase = "ctor"
 			w.ctorVar, w.ctorT = ci[0], ci[1]
 			c := fpCtor{Name: w.fn, Type: ci[1], File: ci[2]}
 			if w.ctorVar != "" {
 				w.env[w.ctorVar] = fresh(w.ctorT)
+				w.declare(w.ctorVar)
 			}
 			if lit := ctorLit[fd]; lit != nil {
 				for _, el := range lit.Elts {
@@ -1342,7 +1592,8 @@ func (g *fpGen) reach(siteFns map[string]bool) map[string][]string {
 
 func footprintFacts(gc *genCtx) string {
 	g := &fpGen{g: gc, fset: token.NewFileSet(), pkgs: map[string]*fpPkg{}, byShort: map[string]*fpPkg{}, anchors: map[string]bool{},
-		inst: map[string]bool{}, calls: map[string]map[string]bool{}, allFn: map[string]bool{}, methodsByName: map[string][]string{}, exported: map[string]bool{}}
+		inst: map[string]bool{}, calls: map[string]map[string]bool{}, allFn: map[string]bool{}, methodsByName: map[string][]string{}, exported: map[string]bool{},
+		paramNames: map[string][]string{}}
 	if problems := g.load(); len(problems) > 0 {
 		gc.unsup["footprint"] = problems
 		return "def facts : Footprint.Facts := UNSUPPORTED_footprint_scan_failed\n"
@@ -1351,9 +1602,32 @@ func footprintFacts(gc *genCtx) string {
 
 	var b strings.Builder
 	var sites []fpSite
+	capOwners := map[string]bool{}
+	captured := func(s fpSite, c fpCapture) fpSite {
+		// the closure runs whenever somebody calls it: after the constructing call has returned
+		s.Root = fpRoot{Kind: "captured", Name: c.Owner, Method: c.Var, Type: c.Type, Depth: c.Depth}
+		if s.Phase == "ctor" {
+			s.Phase = "func"
+		}
+		capOwners[c.Owner] = true
+		return s
+	}
 	for _, s := range g.sites {
-		if g.keep(s) {
+		switch {
+		case g.keep(s) && !(s.cap != nil && s.Root.Kind == "fresh" && s.Root.Type == ""):
 			sites = append(sites, s)
+		case s.cap != nil:
+			// only the closure rule sees this write: a variable of an enclosing function, captured by an escaping literal
+			sites = append(sites, captured(s, *s.cap))
+		case s.Root.Kind == "recv" || s.Root.Kind == "param":
+			// write through the receiver / a parameter of a function that an escaping closure (or method value) hands a
+			// captured variable to
+			for _, mv := range g.mvals {
+				if mv.Method == s.Func && ((s.Root.Kind == "recv" && mv.Param == "") || (s.Root.Kind == "param" && mv.Param == s.Root.Name)) {
+					sites = append(sites, captured(s, mv.Cap))
+					break
+				}
+			}
 		}
 	}
 	sort.SliceStable(sites, func(i, j int) bool {
@@ -1363,6 +1637,9 @@ func footprintFacts(gc *genCtx) string {
 		return sites[i].Line < sites[j].Line
 	})
 	siteFns := map[string]bool{}
+	for o := range capOwners {
+		siteFns[o] = true // the function whose activation holds a captured variable: whoever reaches it can obtain the closure
+	}
 	b.WriteString("/-- every write whose target is not a local, freshly created object (see harness/cmd/factgen/footprint.go) -/\n")
 	b.WriteString("def writeSites : List Footprint.WriteSite := [\n")
 	var js []map[string]any
